@@ -93,6 +93,10 @@ def case(draw):
         c["many"] = draw(st.sampled_from([300, 2000, 6000]))  # a configuration module that builds very many pipelines
     if lang == "py" and draw(st.booleans()):
         c["switchinterval"] = draw(st.sampled_from([1e-4, 1e-5]))
+    if not c.get("many") and kind != "invalid" and draw(st.integers(0, 2)) == 0:
+        # line-level delays inside the service module of the daemon process (installed through sitecustomize on the child's
+        # PYTHONPATH): the poller thread and the configuration interleave at line granularity
+        c["trace_delay"] = {"files": ["runners/service.py"], "delays_ms": [0, draw(st.sampled_from([1, 3, 8])), draw(st.sampled_from([1, 3, 8]))]}
     if (lang == "py" or c["logging"]) and not c.get("many") and draw(st.integers(0, 2)) == 0:
         c["slow_log"] = draw(st.sampled_from([0.001, 0.005, 0.02]))  # a slow log sink on the runtime's own loggers
     return c
@@ -180,7 +184,7 @@ def run_case(c) -> Result:
     res = Result()
     inv = c.get("invalid")
     name = {"ext-txt": "config.txt", "ext-json": "config.json", "ext-none": "config"}.get(inv, "config.yaml" if c["lang"] == "yaml" else "config.py")
-    d = Daemon(name, "", extra_args=c.get("cli", []), create=False)
+    d = Daemon(name, "", extra_args=c.get("cli", []), create=False, trace_delay=c.get("trace_delay"))
     try:
         text = yaml_text(c, d.log) if c["lang"] == "yaml" else py_text(c)
         if inv != "missing-file":
